@@ -62,7 +62,9 @@ func VerifC04_limit_run() {
 	e := vLimitSetup()
 	M := vParam("M", 3)
 	d := e.d
-	d.main()
+	vTermWatch(d.output)
+	vRunSpawned(0) // the goroutine New started: main
+	vRunLeftoverSpawned()
 	Q := d.opts.Limit.Quantity
 	I := int64(d.opts.Limit.Interval)
 	// C12: lossless, ordered, closed afterwards
